@@ -24,6 +24,7 @@ CONSTANTS
   MinSteps = 3
   MaxSteps = 5
   RationalOnly = TRUE
+  Twins = FALSE
   NeedDt = FALSE
   BindLeaves = TRUE
   EmitOn = TRUE
